@@ -77,12 +77,15 @@ func AuthFirstPacket(firstPacket []byte, transport Transport, sta *State) (info 
 	// 12 bytes used as nonce: register the canonical form so a copy with the bit flipped is a replay
 	usedKey := fragments.randPubKey
 	usedKey[31] &= 0x7f
-	if sta.registerRandom(usedKey) {
+	// one reading of the clock for the whole presentation: the replay cache entry must not be older than the
+	// moment the timestamp window is judged at, or the entry can be evicted while the packet is still timely
+	now := sta.WorldState.Now()
+	if sta.registerRandom(usedKey, now) {
 		err = ErrReplay
 		return
 	}
 
-	info, err = decryptClientInfo(fragments, sta.WorldState.Now().UTC())
+	info, err = decryptClientInfo(fragments, now.UTC())
 	if err != nil {
 		log.Debug(err)
 		err = fmt.Errorf("%w: %v", ErrBadDecryption, err)
